@@ -399,7 +399,12 @@ func (dec *xmlReader) DateTime(tag int) (time.Time, error) {
 	if err != nil {
 		return time.Time{}, err
 	}
-	return dt.Local(), dec.Next()
+	dt = dt.Local()
+	if y := dt.Year(); y < 0 || y > 9999 {
+		// Outside of what the writers can express in RFC 3339 (a zone offset moved it across the boundary)
+		return time.Time{}, Errorf("date-time is out of bound")
+	}
+	return dt, dec.Next()
 }
 
 func (dec *xmlReader) Interval(tag int) (time.Duration, error) {
